@@ -64,3 +64,16 @@ def bounded_walk(tier, what, name, rule):
         out["violations"] = []
         out["error"] = r.get("search_error", "no result")
     return out
+
+
+def bounded_pure(tier, what, name, rule, seed=0, exhaustive=True):
+    """bounded stand-in on the real pure functions (native/pure_bounded.py); never counted as proved"""
+    size = "thorough" if tier == "thorough" else "quick"
+    r = run_harness("pure_bounded.py", ["--what", what, "--size", size, "--seed", str(seed)], 3000)
+    out = {"name": name, "rule": rule, "bound": size, "cases": r.get("cases", 0), "nontrivial": r.get("nontrivial", 0),
+           "exhaustive": exhaustive, "wall_s": r.get("wall"),
+           "violations": [dict(v, script="pure_bounded.py") for v in r.get("violations", [])]}
+    if "cases" not in r:
+        out["error"] = r.get("search_error", "no result")
+        out["violations"] = []
+    return out
